@@ -8,7 +8,7 @@
 use crate::model::{build, small_content_strategy, tiny_content_strategy, Built, Content, Probes};
 use crate::obs::{observe_router, same_state, state_diff, RouterObs};
 use nv_engine::crashkit::{cut_points, run_child, set_file_size_limit};
-use nv_engine::{pick, scratch, CaseCtx, Fail, Tier};
+use nv_engine::{scratch, CaseCtx, Fail, Tier};
 use proptest::prelude::*;
 use serde::{Deserialize, Serialize};
 use std::path::{Path, PathBuf};
@@ -20,12 +20,14 @@ const PATHS: [&str; 4] = ["snap.bin", "snapshot", "db.v2.snap", "snap.tmp"];
 
 #[derive(Clone, Debug, Serialize, Deserialize)]
 pub enum Lim {
-    /// absolute byte limit (around the 20-byte header)
-    Abs(u16),
-    /// size of the new snapshot plus this
+    /// absolute byte limit
+    Abs(u64),
+    /// S plus this, where S is the exact size of the snapshot the child is about to write (the child
+    /// measures it with an unlimited trial save: the compressed size varies by a few bytes from
+    /// process to process with the hash-map field order)
     FromEnd(i8),
-    /// scaled into 0..=size of the new snapshot
-    Frac(u16),
+    /// strictly inside the payload: header + 1 + scaled into the rest
+    Interior(u16),
 }
 
 #[derive(Clone, Debug, Serialize, Deserialize)]
@@ -53,15 +55,15 @@ fn writer_path() -> impl Strategy<Value = (u8, u8)> {
 
 pub fn kill_strategy(_t: Tier) -> impl Strategy<Value = KillCase> {
     let lim = prop_oneof![
-        3 => (0u16..48).prop_map(Lim::Abs),
-        3 => (-12i8..=3).prop_map(Lim::FromEnd),
-        8 => any::<u16>().prop_map(Lim::Frac),
+        3 => (0u64..48).prop_map(Lim::Abs),
+        9 => any::<u16>().prop_map(Lim::Interior),
+        4 => (-12i8..=3).prop_map(Lim::FromEnd),
     ];
     (small_content_strategy(), small_content_strategy(), writer_path(), lim).prop_map(|(prev, next, (writer, path), lim)| KillCase { prev, next, writer, path, lim })
 }
 
 pub fn kill_all_strategy(t: Tier) -> impl Strategy<Value = KillAllCase> {
-    let all_up_to = t.pick(700u16, 3000u16);
+    let all_up_to = t.pick(3_000u16, 24_000u16);
     (tiny_content_strategy(), tiny_content_strategy(), writer_path()).prop_map(move |(prev, next, (writer, path))| KillAllCase { prev, next, writer, path, all_up_to })
 }
 
@@ -100,16 +102,42 @@ struct Job {
     path: String,
 }
 
-/// Child entry point: `child save <jobfile> <limit>`; exit 0 = the save returned Ok, 3 = it returned Err.
+/// Child entry point: `child save <jobfile> <limit as JSON>`; exit 0 = the save returned Ok, 3 = it
+/// returned Err. Prints "<S> <L>" (exact snapshot size, limit used) before the limited save.
 pub fn child_save(args: &[String]) -> i32 {
     let Some(text) = args.first().and_then(|p| std::fs::read_to_string(p).ok()) else { return 2 };
     let Ok(job) = serde_json::from_str::<Job>(&text) else { return 2 };
-    let limit: u64 = args.get(1).and_then(|s| s.parse().ok()).unwrap_or(u64::MAX);
+    let Some(lim) = args.get(1).and_then(|s| serde_json::from_str::<Lim>(s).ok()) else { return 2 };
     let built = build(&job.content);
+    let path = Path::new(&job.path);
+    // trial save next to the target (own directory, so its temporary file is not the target's)
+    let probe_dir = path.parent().unwrap_or(Path::new(".")).join("probe");
+    let _ = std::fs::create_dir_all(&probe_dir);
+    let probe = probe_dir.join(path.file_name().unwrap_or_default());
+    if let Err(e) = save(&built.store, job.writer, &probe) {
+        eprintln!("trial save failed: {e}");
+        return 2;
+    }
+    let s = std::fs::metadata(&probe).map(|m| m.len()).unwrap_or(0);
+    let hdr = header_len(job.writer);
+    let limit = match lim {
+        Lim::Abs(a) => a,
+        Lim::FromEnd(d) => (s as i64 + i64::from(d)).max(0) as u64,
+        Lim::Interior(f) => {
+            if s > hdr + 1 {
+                hdr + 1 + nv_engine::pick(f, (s - hdr - 1) as usize) as u64
+            } else {
+                s.saturating_sub(1)
+            }
+        },
+    };
+    println!("{s} {limit}");
+    use std::io::Write;
+    let _ = std::io::stdout().flush();
     if limit != u64::MAX {
         set_file_size_limit(limit);
     }
-    match save(&built.store, job.writer, Path::new(&job.path)) {
+    match save(&built.store, job.writer, path) {
         Ok(()) => 0,
         Err(e) => {
             eprintln!("save failed: {e}");
@@ -128,6 +156,8 @@ struct Env {
     p_obs: RouterObs,
     n_obs: RouterObs,
     n_len: u64,
+    /// size of the uncompressed v3 form of the new content (identical in every process)
+    n_raw_len: u64,
     next: Built,
     probes: Probes,
 }
@@ -136,6 +166,14 @@ struct Env {
 enum Outcome {
     Prev,
     New,
+}
+
+struct Run {
+    outcome: Outcome,
+    killed: bool,
+    /// exact size of the snapshot the child wrote / would have written
+    size: u64,
+    limit: u64,
 }
 
 impl Env {
@@ -159,30 +197,41 @@ impl Env {
         save(&n.store, writer, &nref).map_err(|e| Fail::new("save-failed", format!("saving the new snapshot failed: {e}")))?;
         let n_len = std::fs::metadata(&nref).map(|m| m.len()).map_err(|e| h(e.to_string()))?;
         let n_obs = observe_router(load(writer, &nref).map_err(|e| Fail::new("load-failed", format!("the new snapshot does not load: {e}")))?.router(), &probes, true);
+        let nraw = refdir.join("raw-size-probe");
+        tensor_store::snapshot::save_v3_uncompressed(n.store.router(), &nraw).map_err(|e| Fail::new("save-failed", format!("saving the new snapshot uncompressed failed: {e}")))?;
+        let n_raw_len = std::fs::metadata(&nraw).map(|m| m.len()).map_err(|e| h(e.to_string()))?;
         let job = dir.join("job.json");
         let text = serde_json::to_string(&Job { content: next.clone(), writer, path: path.display().to_string() }).map_err(|e| h(e.to_string()))?;
         std::fs::write(&job, text).map_err(|e| h(e.to_string()))?;
         let tmp_path_is_target = path.with_extension("tmp") == path;
-        Ok(Env { _dir: dir, path, job, writer, tmp_path_is_target, p_bytes, p_obs, n_obs, n_len, next: n, probes })
+        Ok(Env { _dir: dir, path, job, writer, tmp_path_is_target, p_bytes, p_obs, n_obs, n_len, n_raw_len, next: n, probes })
     }
 
     fn sig(&self, what: &str) -> String {
-        let suffix = if self.tmp_path_is_target { ":path-has-tmp-extension" } else { "" };
-        format!("{what}:{}{suffix}", WRITERS[self.writer as usize % 4])
+        if self.tmp_path_is_target && what.starts_with("torn:") {
+            // one root cause whatever the writer: the temporary name equals the target
+            return "torn:path-has-tmp-extension".to_string();
+        }
+        format!("{what}:{}", WRITERS[self.writer as usize % 4])
     }
 
-    /// One interrupted save with file-size limit `l`. Returns (outcome, killed).
-    fn run(&self, l: u64, ctx: &mut CaseCtx) -> Result<Option<(Outcome, bool)>, Fail> {
+    /// One interrupted save. Returns (outcome, killed, exact size of the child's snapshot, limit used).
+    fn run(&self, lim: &Lim, ctx: &mut CaseCtx) -> Result<Option<Run>, Fail> {
         std::fs::write(&self.path, &self.p_bytes).map_err(|e| Fail::new("harness", e.to_string()))?;
-        let r = run_child("save", &[self.job.display().to_string(), l.to_string()], &[]).map_err(|e| Fail::new("harness", format!("cannot run the child: {e}")))?;
+        let lim_json = serde_json::to_string(lim).map_err(|e| Fail::new("harness", e.to_string()))?;
+        let r = run_child("save", &[self.job.display().to_string(), lim_json], &[]).map_err(|e| Fail::new("harness", format!("cannot run the child: {e}")))?;
         let killed = r.signal == Some(SIGXFSZ);
         let completed = r.code == Some(0);
+        let mut nums = r.stdout.split_whitespace().filter_map(|x| x.parse::<u64>().ok());
+        let (Some(size), Some(l)) = (nums.next(), nums.next()) else {
+            return Err(Fail::new("harness:child", format!("child gave no size/limit line: code {:?} signal {:?} stdout {:?} stderr {:?}", r.code, r.signal, r.stdout, r.stderr.lines().last())));
+        };
         if !killed && !completed && r.code != Some(3) {
             return Err(Fail::new("child-died-unexpectedly", format!("limit {l}: child ended with code {:?} signal {:?}: {}", r.code, r.signal, r.stderr.lines().last().unwrap_or(""))));
         }
         let status = if killed { "killed by SIGXFSZ".to_string() } else { format!("exit code {:?}", r.code) };
         let flen = std::fs::metadata(&self.path).map(|m| m.len()).unwrap_or(0);
-        let describe = || format!("{} to {:?} with RLIMIT_FSIZE={l} ({status}); previous snapshot {} bytes, new snapshot about {} bytes, file now {flen} bytes", WRITERS[self.writer as usize % 4], self.path.file_name().unwrap_or_default(), self.p_bytes.len(), self.n_len);
+        let describe = || format!("{} to {:?} with RLIMIT_FSIZE={l} ({status}); previous snapshot {} bytes, new snapshot {size} bytes, file now {flen} bytes", WRITERS[self.writer as usize % 4], self.path.file_name().unwrap_or_default(), self.p_bytes.len());
         let loaded = match load(self.writer, &self.path) {
             Ok(s) => s,
             Err(e) => {
@@ -201,7 +250,7 @@ impl Env {
             ctx.fail(self.sig("completed-save-not-visible"), format!("{}: the save returned Ok but the path still holds the previous snapshot", describe()))?;
             return Ok(None);
         }
-        Ok(Some((if is_new { Outcome::New } else { Outcome::Prev }, killed)))
+        Ok(Some(Run { outcome: if is_new { Outcome::New } else { Outcome::Prev }, killed, size, limit: l }))
     }
 
     /// After the interrupted saves (stale temporary files may be lying around) an ordinary save of
@@ -237,78 +286,78 @@ impl Env {
 pub fn kill_check(c: &KillCase, ctx: &mut CaseCtx) -> Result<(), Fail> {
     let env = Env::prepare(&c.prev, &c.next, c.writer, c.path)?;
     env.labels(ctx);
-    let l = match c.lim {
-        Lim::Abs(a) => u64::from(a),
-        Lim::FromEnd(d) => (env.n_len as i64 + i64::from(d)).max(0) as u64,
-        Lim::Frac(f) => pick(f, env.n_len as usize + 1) as u64,
-    };
     ctx.label(match c.lim {
-        Lim::Abs(_) => "limit: absolute 0..48 (around the header)",
-        Lim::FromEnd(_) => "limit: within -12..+3 of the new snapshot's size",
-        Lim::Frac(_) => "limit: interior point",
+        Lim::Abs(_) => "limit: 0..48 (around the header)",
+        Lim::Interior(_) => "limit: strictly inside the payload",
+        Lim::FromEnd(_) => "limit: within -12..+3 of the new snapshot's exact size",
     });
-    if let Some((outcome, killed)) = env.run(l, ctx)? {
-        ctx.label(if outcome == Outcome::New { "outcome: new snapshot" } else { "outcome: previous snapshot" });
-        ctx.label(if killed { "child killed by SIGXFSZ" } else { "child completed" });
-        if killed && l > header_len(c.writer) {
+    if let Some(r) = env.run(&c.lim, ctx)? {
+        ctx.label(if r.outcome == Outcome::New { "outcome: new snapshot" } else { "outcome: previous snapshot" });
+        ctx.label(if r.killed { "child killed by SIGXFSZ" } else { "child completed" });
+        if r.killed != (r.limit < r.size) && !env.tmp_path_is_target {
+            // the writers produce one file: the child dies iff the limit is below the snapshot's size
+            ctx.label("kill/size relation unexpected");
+        }
+        if r.killed && r.limit > header_len(c.writer) {
             ctx.label("save killed strictly inside the payload");
             ctx.set_nontrivial();
-        } else if killed {
+        } else if r.killed {
             ctx.label("save killed inside the header");
+        }
+        if let Lim::FromEnd(d) = c.lim {
+            ctx.label(match d {
+                -1 => "limit = size - 1",
+                0 => "limit = size",
+                _ => "limit near size",
+            });
         }
     }
     env.resave(ctx)
 }
 
 pub fn kill_all_check(c: &KillAllCase, ctx: &mut CaseCtx) -> Result<(), Fail> {
-    let every_byte_up_to = u64::from(c.all_up_to);
-    let interior = 60;
     let env = Env::prepare(&c.prev, &c.next, c.writer, c.path)?;
     env.labels(ctx);
-    let end = env.n_len + 2;
-    let limits: Vec<u64> = if env.n_len <= every_byte_up_to {
+    // the parent knows the size only up to the process-to-process variation of the compressed form;
+    // the class decisions below use the uncompressed size, which is the same in every process
+    let end = env.n_len + 16;
+    let every = env.n_raw_len <= u64::from(c.all_up_to);
+    let limits: Vec<u64> = if every {
         ctx.label("every byte limit enumerated");
         (0..=end).collect()
     } else {
         ctx.label("stratified byte limits");
-        let mut v: Vec<usize> = cut_points(0, end as usize, false, interior, &[20, env.n_len as usize]);
-        v.extend((0..24).map(|k| (env.n_len as usize).saturating_sub(k)));
+        let mut v: Vec<usize> = cut_points(0, end as usize, false, 60, &[20, env.n_len as usize]);
+        v.extend((0..40).map(|k| (end as usize).saturating_sub(k)));
         v.sort_unstable();
         v.dedup();
         v.into_iter().map(|x| x as u64).collect()
     };
     let mut kills_in_payload = 0u64;
-    let mut kills = 0u64;
-    let mut new_seen = false;
+    let mut completed = false;
     for l in &limits {
-        if let Some((outcome, killed)) = env.run(*l, ctx)? {
-            if killed {
-                kills += 1;
+        if let Some(r) = env.run(&Lim::Abs(*l), ctx)? {
+            if r.killed {
                 if *l > header_len(c.writer) {
                     kills_in_payload += 1;
                 }
-                if outcome == Outcome::New && !same_state(&env.p_obs, &env.n_obs) {
-                    ctx.label("killed child, yet the new snapshot is in place (killed after the rename)");
-                }
             } else {
-                new_seen = true;
+                completed = true;
             }
         }
         if ctx.known_hit() {
             break;
         }
     }
-    ctx.note = Some(serde_json::json!({ "limits_run": limits.len(), "kills": kills, "kills_inside_payload": kills_in_payload, "new_snapshot_bytes": env.n_len }));
-    ctx.label(format!("kills per case:{}", match kills { 0 => "0", 1..=15 => "1-15", 16..=63 => "16-63", 64..=255 => "64-255", _ => "256+" }));
-    if new_seen {
-        ctx.label("some limit let the save complete");
+    if completed {
+        ctx.label("the largest limits let the save complete");
     }
     if kills_in_payload > 0 {
         ctx.set_nontrivial();
     }
     // one more unlimited run in a child: must end with the new snapshot
-    if let Some((outcome, _)) = env.run(u64::MAX, ctx)? {
-        if outcome != Outcome::New {
+    if let Some(r) = env.run(&Lim::Abs(u64::MAX), ctx)? {
+        if r.outcome != Outcome::New {
             ctx.fail(env.sig("completed-save-not-visible"), "unlimited child save did not install the new snapshot".to_string())?;
         }
     }
